@@ -507,27 +507,30 @@ def run(ctx):
     # --- C2S beyond TLC's sizes: a small base pattern scaled up (Trace_Order: scaling law) ---
     # keys that are equal under cmp and different objects / different dict keys: NaN objects, a date and the datetime of its day,
     # 1 and 1.0 and True-free numbers; sizes around the usual thresholds (8..40, 65, 101, 257, 1025); repeated calls on one object
-    tie_pool = [["nan", 1], ["nan", 2], ["nan", 3], ["date", 730120], ["d", [730120, 0, 0]], ["d", [730120, 3600, 0]], ["date", 730121], ["d", [730121, 0, 0]],
-                ["i", 1], ["f", [1, 1]], ["i", 2], ["f", [5, 2]], ["n", 0], ["s", "a"], ["s", "b"]]
-    sizes = ([8, 12, 17, 24, 33, 40] * 8 + [65, 66, 70, 101] * 5 + [129, 257, 258] * 2 + [1025]) if ctx.quick else \
-            ([8, 12, 17, 24, 33, 40] * 40 + [65, 66, 70, 101, 129] * 20 + [257, 258, 513] * 8 + [1025, 1030, 2049] * 3)
+    T = {'n1': ["nan", 1], 'n2': ["nan", 2], 'n3': ["nan", 3], 'day': ["date", 730120], 'dt': ["d", [730120, 0, 0]], 'dt1h': ["d", [730120, 3600, 0]],
+         'day2': ["date", 730121], 'dt2': ["d", [730121, 0, 0]], 'i1': ["i", 1], 'f1': ["f", [1, 1]], 'i2': ["i", 2], 'f25': ["f", [5, 2]], 'none': ["n", 0], 'a': ["s", "a"], 'b': ["s", "b"]}
+    kinds = {'nan': ['n1', 'n2', 'n3'], 'day': ['day', 'dt', 'dt1h'], 'num': ['i1', 'f1', 'i2', 'f25'], 'nanmix': ['n1', 'n2', 'i1', 'a', 'none'],
+             'daymix': ['day', 'dt', 'day2', 'dt2', 'none'], 'nanday': ['n1', 'n2', 'day', 'dt'], 'any': sorted(T)}
+    plan = [(size, kind) for size in [8, 12, 17, 24, 33, 40, 65, 70, 101, 129, 257] for kind in sorted(kinds)] + [(1025, kind) for kind in ('nan', 'nanmix', 'num', 'day')]
+    if not ctx.quick:
+        plan = plan * 4 + [(size, kind) for size in [258, 513, 1030, 2049] for kind in sorted(kinds)]
     scale_n = 0
-    for j, size in enumerate(sizes):
-        n = rng.choice([2, 2, 3, 4, 5, 6])
-        sub = rng.sample(tie_pool, rng.choice([2, 3, 4, 6]))
-        if j % 3 == 0:      # ties only: every key of the column is one of two or three objects that cmp ranks equal
-            sub = rng.choice([tie_pool[0:2], tie_pool[0:3], tie_pool[3:5], tie_pool[6:8], tie_pool[8:10], tie_pool[0:2] + tie_pool[3:5]])
-        base = [{'a': rng.choice(sub), 'b': rng.choice(sub), 'id': ["i", 0]} for _ in range(n)]
+    sizes = [size for size, kind in plan]
+    for j, (size, kind) in enumerate(plan):      # every size bucket meets every kind of base: by plan, not by the random stream
+        names = kinds[kind] if kind != 'any' else rng.sample(kinds[kind], rng.choice([3, 4, 6]))
+        sub = [T[x] for x in names]
+        n = min(rng.choice([2, 3, 4, 5, 6]), size // 2)
+        base = [{'a': sub[i % len(sub)] if i < len(sub) else rng.choice(sub), 'b': rng.choice(sub), 'id': ["i", 0]} for i in range(n)]      # column a starts with distinct tied objects
         k = max(2, -(-size // n))
-        layout = rng.choice(['block', 'block', 'each'])
-        reps = rng.choice([1, 1, 2, 17, 65]) if size <= 70 else 1
-        obs.append(dscale_obs(base, rng.choice([['a'], ['b'], ['a', 'b'], ['b', 'a'], ['a', 'b', 'id'], ['b', 'id', 'a']]), layout, k, reps))
-        if j % 2 == 0:
-            vs = []
-            for t in [r['a'] for r in base] + [r['b'] for r in base]:
-                if t not in vs:
-                    vs.append(t)
-            obs.append(sscale_obs(vs, rng.choice(['sort', 'Cmp']), layout, max(2, -(-size // len(vs))), reps))
+        layout = ['block', 'block', 'each'][j % 3]
+        reps = [1, 2, 17, 65][j % 4] if size <= 70 else 1
+        by = [['a'], ['b'], ['a', 'b'], ['b', 'a'], ['a', 'b', 'id'], ['b', 'id', 'a'], ['a']][(j // 7 + j) % 7]
+        obs.append(dscale_obs(base, by, layout, k, reps))
+        vs = []
+        for t in sub:
+            if t not in vs:
+                vs.append(t)
+        obs.append(sscale_obs(vs, ['sort', 'Cmp'][j % 2], layout, max(2, -(-size // len(vs))), reps))
         scale_n += 1
         ctx.note(('scale', j))
     ctx.extra['scaled_observations'] = {'tables_and_lists': scale_n, 'largest': max(sizes)}
